@@ -56,8 +56,8 @@ class Check:
         if expect_ok and not res.ok:
             self.machinery_errors.append('TLC run %s failed:\n%s' % (name, res.out[-3000:]))
 
-    def fail(self, tid, clause, case=None, key=None):
-        self.failures.append({'tid': tid, 'clause': clause, 'key': key or clause, 'case': case})
+    def fail(self, tid, clause, case=None, key=None, desc=None):
+        self.failures.append({'tid': tid, 'clause': clause, 'key': key or clause, 'case': case, 'desc': desc})
 
     def note(self, msg):
         self.notes.append(msg)
@@ -86,23 +86,22 @@ class Check:
                     self.pid, k['what'], k['key'], len(matched[k['key']])))
         rc = 0
         replay_dir = os.path.join(VERIF, 'replays')
-        seen = set()
+        printed = 0
         for f in violations:
-            sig = (f['clause'], f['key'])
-            if sig in seen and len(seen) > 20:
+            rc = 1
+            if printed >= 20:
                 continue
-            seen.add(sig)
+            printed += 1
             os.makedirs(replay_dir, exist_ok=True)
             safe = ''.join(c if c.isalnum() or c in '-_.' else '_' for c in str(f['tid']))[:80]
             path = os.path.join(replay_dir, '%s-%s.json' % (self.pid, safe))
             with open(path, 'w') as fh:
                 json.dump({'property': self.pid, 'tid': f['tid'], 'clause': f['clause'], 'key': f['key'],
                            'case': f['case'], 'tier': self.tier, 'seed': self.seed}, fh, indent=1, default=repr)
-            print('VIOLATION property=%s replay=%s clause=%s tid=%s' % (self.pid, path, f['clause'], f['tid']))
-            rc = 1
-            if len(seen) >= 25:
-                print('NOTE further violations suppressed (%d in total)' % len(violations))
-                break
+            print('VIOLATION property=%s replay=%s clause=%s tid=%s %s' % (
+                self.pid, path, f['clause'], f['tid'], f.get('desc') or ''))
+        if len(violations) > printed:
+            print('NOTE %d further violations not listed (%d in total)' % (len(violations) - printed, len(violations)))
         if self.machinery_errors:
             for m in self.machinery_errors:
                 print('MACHINERY-ERROR: ' + m)
